@@ -209,16 +209,26 @@ impl<F: PathFetcher> PathSet<F> {
                 };
 
                 let exit_reason = maintain.await;
+                #[cfg(feature = "verif-hooks")]
+                crate::path::manager::verif_trace::quit(&self.shared, exit_reason);
+                #[cfg(feature = "verif-hooks")]
+                crate::path::manager::verif_trace::pause(7).await;
 
                 // If manager still exists, drop the PathSet entry
                 if let Some(mgr) = self.manager.upgrade() {
                     mgr.stop_managing_paths(self.src, self.dst);
                 }
+                #[cfg(feature = "verif-hooks")]
+                crate::path::manager::verif_trace::ev(crate::path::manager::verif_trace::Kind::ExitRemoveDone, &self.shared, 0);
+                #[cfg(feature = "verif-hooks")]
+                crate::path::manager::verif_trace::pause(8).await;
 
                 // Ensure no waiting tasks remain
                 let mut sync_guard = self.shared.sync.lock().unwrap();
                 sync_guard.ongoing_start = None;
                 sync_guard.initialized = true;
+                #[cfg(feature = "verif-hooks")]
+                crate::path::manager::verif_trace::ev(crate::path::manager::verif_trace::Kind::ExitBlock, &self.shared, 0);
                 sync_guard.completed_notify.notify_waiters();
 
                 // On exit, set error state - handles could still be around
@@ -227,6 +237,8 @@ impl<F: PathFetcher> PathSet<F> {
                 )));
 
                 // Clear active path
+                #[cfg(feature = "verif-hooks")]
+                crate::path::manager::verif_trace::exit_clear(&self.shared);
                 self.shared.active_path.store(None);
 
                 tracing::info!(exit_reason, "Managed paths task exiting");
@@ -402,6 +414,8 @@ impl<F: PathFetcher> PathSet<F> {
             }
 
             notify_guard.ongoing_start = Some(now);
+            #[cfg(feature = "verif-hooks")]
+            crate::path::manager::verif_trace::ev(crate::path::manager::verif_trace::Kind::Begin, &self.shared, 0);
         }
 
         let path_fetch = async {
@@ -418,6 +432,10 @@ impl<F: PathFetcher> PathSet<F> {
         };
 
         let result = path_fetch.await;
+        #[cfg(feature = "verif-hooks")]
+        crate::path::manager::verif_trace::fetched(&self.shared, &result);
+        #[cfg(feature = "verif-hooks")]
+        crate::path::manager::verif_trace::pause(5).await;
         match result {
             // Successful fetch and ingestion, at least one path available
             Ok(fetched_paths) => {
@@ -472,19 +490,27 @@ impl<F: PathFetcher> PathSet<F> {
             }
         }
 
+        #[cfg(feature = "verif-hooks")]
+        crate::path::manager::verif_trace::ev(crate::path::manager::verif_trace::Kind::SetErr, &self.shared, 0);
         // Always update ranking, and possibly active path
         self.rerank(now, manager);
         self.maybe_update_active_path(now, manager);
+        #[cfg(feature = "verif-hooks")]
+        crate::path::manager::verif_trace::pause(6).await;
 
         // Set update state
         {
             let mut notify_guard = self.shared.sync.lock().unwrap();
             notify_guard.ongoing_start = None;
             notify_guard.initialized = true;
+            #[cfg(feature = "verif-hooks")]
+            crate::path::manager::verif_trace::ev(crate::path::manager::verif_trace::Kind::Complete, &self.shared, 0);
             notify_guard.completed_notify.notify_waiters();
         }
 
         tracing::debug!("Completed path refetch and update");
+        #[cfg(feature = "verif-hooks")]
+        crate::path::manager::verif_trace::ev(crate::path::manager::verif_trace::Kind::Release, &self.shared, 0);
     }
 
     /// Returns the earliest expiry time among the cached paths.
@@ -566,6 +592,8 @@ impl<F: PathFetcher> PathSet<F> {
             if Some(fp) == active_path_fp {
                 if keep {
                     tracing::trace!(fp = format!("{fp:#}"), "Keeping updated active path");
+                    #[cfg(feature = "verif-hooks")]
+                    crate::path::manager::verif_trace::ev(crate::path::manager::verif_trace::Kind::Slot, &self.shared, 1);
                     self.shared
                         .active_path
                         .store(Some(Arc::new((cached_path.path.clone(), fp))));
@@ -574,6 +602,8 @@ impl<F: PathFetcher> PathSet<F> {
                         fp = format!("{fp:#}"),
                         "Active path is expired, clearing active path"
                     );
+                    #[cfg(feature = "verif-hooks")]
+                    crate::path::manager::verif_trace::ev(crate::path::manager::verif_trace::Kind::Slot, &self.shared, 0);
                     self.shared.active_path.store(None);
                 }
             }
@@ -749,6 +779,8 @@ impl<F: PathFetcher> PathSet<F> {
             }
             (ActivePathDecision::ForceReplace(reason), None) => {
                 tracing::warn!(%active_fp, %reason, "Active path must be replaced, but no better path is available");
+                #[cfg(feature = "verif-hooks")]
+                crate::path::manager::verif_trace::ev(crate::path::manager::verif_trace::Kind::Slot, &self.shared, 0);
                 self.shared.active_path.store(None);
             }
             // We have a reason and a better path
@@ -768,6 +800,8 @@ impl<F: PathFetcher> PathSet<F> {
                 let best_score = scorer.score_report(best_path, now);
                 tracing::debug!("New path score: {best_score} ({})", best_path.path);
                 tracing::debug!("{}", best_path.path);
+                #[cfg(feature = "verif-hooks")]
+                crate::path::manager::verif_trace::ev(crate::path::manager::verif_trace::Kind::Slot, &self.shared, 1);
 
                 self.shared.active_path.store(Some(Arc::new((
                     best_path.path.clone(),
@@ -925,10 +959,14 @@ impl PathSetHandle {
 
         {
             let active_guard = self.shared.active_path.load();
+            #[cfg(feature = "verif-hooks")]
+            crate::path::manager::verif_trace::ev(crate::path::manager::verif_trace::Kind::Load1, &self.shared, u64::from(active_guard.is_some()));
             if active_guard.is_some() {
                 return active_guard;
             }
         }
+        #[cfg(feature = "verif-hooks")]
+        crate::path::manager::verif_trace::pause(2).await;
 
         self.await_ongoing_update().await;
 
@@ -942,13 +980,21 @@ impl PathSetHandle {
 
             // No ongoing update
             if notify_guard.ongoing_start.is_none() && notify_guard.initialized {
+                #[cfg(feature = "verif-hooks")]
+                crate::path::manager::verif_trace::ev(crate::path::manager::verif_trace::Kind::Check, &self.shared, 1);
                 return;
             }
+            #[cfg(feature = "verif-hooks")]
+            crate::path::manager::verif_trace::ev(crate::path::manager::verif_trace::Kind::Check, &self.shared, 0);
 
             notify_guard.completed_notify.clone().notified_owned()
         };
 
         finish_notification.await;
+        #[cfg(feature = "verif-hooks")]
+        crate::path::manager::verif_trace::ev(crate::path::manager::verif_trace::Kind::Wake, &self.shared, 0);
+        #[cfg(feature = "verif-hooks")]
+        crate::path::manager::verif_trace::pause(3).await;
     }
 
     /// Returns the current fetch error, if any
